@@ -229,6 +229,37 @@ func (i *Interp) allocGlobals(pkg *ssa.Package) {
 	}
 }
 
+func fnPkgPath(fn *ssa.Function) string {
+	for f := fn; f != nil; f = f.Parent() {
+		if f.Pkg != nil {
+			return f.Pkg.Pkg.Path()
+		}
+		if o := f.Origin(); o != nil && o.Pkg != nil {
+			return o.Pkg.Pkg.Path()
+		}
+	}
+	if fn.Object() != nil && fn.Object().Pkg() != nil {
+		return fn.Object().Pkg().Path()
+	}
+	return ""
+}
+
+func poisonResult(fn *ssa.Function, pkg string) value {
+	res := fn.Signature.Results()
+	pv := poisonVal{pkg + "." + fn.Name() + "()"}
+	switch res.Len() {
+	case 0:
+		return nil
+	case 1:
+		return pv
+	}
+	t := make(tuple, res.Len())
+	for k := range t {
+		t[k] = pv
+	}
+	return t
+}
+
 // poisonVal marks the value of a global whose package initialiser was not run.
 type poisonVal struct{ name string }
 
@@ -723,6 +754,13 @@ func callSSA(i *Interp, caller *frame, callpos token.Pos, fn *ssa.Function, args
 		}
 		if r, handled := i.tryExternal(fr, fn, name, args); handled {
 			return r
+		}
+		if i.inInit {
+			if pp := fnPkgPath(fn); pp != "" && !initAllowed(pp) {
+				// Initialisers calling into packages that are not modelled
+				// (HCL, cty, ...): the result is poison, any later use aborts.
+				return poisonResult(fn, pp)
+			}
 		}
 		if fn.Blocks == nil {
 			panic(unsupported("no code for function %s (called from %s)", name, caller.where()))
